@@ -420,6 +420,12 @@ func (c06) possCase(c *core.C, d model.MDep, mode string) {
 			}
 		}
 	}
+	pristine := normDep(dep)
+	defer func() {
+		if after := normDep(dep); after != pristine {
+			c.Failf("the accessors modified the Dependency they were called on:\n before: %s\n after:  %s", clip(pristine, 300), clip(after, 300))
+		}
+	}()
 	cmpList("GetAllPossibilities", dep.GetAllPossibilities(), wantAll)
 	cmpList("GetSubstvars", dep.GetSubstvars(), wantSub)
 	for _, an := range c06Archs {
